@@ -1,0 +1,174 @@
+//go:build verif
+
+package dtlcp
+
+// Hooks for the handshake-message codec check (verification harness only): construct the
+// unexported message structs from exported field records, run their own marshal / unmarshal,
+// and copy the decoded fields back out.  Add-only; nothing here changes library behaviour.
+
+// VerifCodecMsg is the union of the fields of all handshake messages.
+type VerifCodecMsg struct {
+	// hellos
+	Vers         uint16
+	Random       []byte
+	SessionId    []byte
+	Cookie       []byte // clientHello, helloVerifyRequest
+	CipherSuites []uint16
+	Compression  []byte
+	ServerName   string
+	TAs          []TrustedAuthority
+	OCSP         bool
+	Curves       []uint16
+	SigAlgs      []uint16
+	ALPN         []string
+	ClientID     []byte
+	// server hello
+	CipherSuite       uint16
+	CompressionMethod uint8
+	OCSPResponse      []byte
+	ALPNProto         string
+	SNIAck            bool
+	// certificate / certificate request
+	Certificates [][]byte
+	CertTypes    []byte
+	CAs          [][]byte
+	// key exchanges, certificate verify, finished: the single opaque field
+	Blob []byte
+	// DTLCP header fields carried by every message struct
+	Seq     uint16
+	FragOff uint32
+	FragLen uint32
+	// after an unmarshal: does marshal() of the same object return the input (raw cache)
+	RawIsInput bool
+}
+
+func verifCodecNew(kind string) handshakeMessage {
+	switch kind {
+	case "clientHello":
+		return new(clientHelloMsg)
+	case "serverHello":
+		return new(serverHelloMsg)
+	case "certificate":
+		return new(certificateMsg)
+	case "serverKeyExchange":
+		return new(serverKeyExchangeMsg)
+	case "certificateRequest":
+		return new(certificateRequestMsg)
+	case "serverHelloDone":
+		return new(serverHelloDoneMsg)
+	case "clientKeyExchange":
+		return new(clientKeyExchangeMsg)
+	case "certificateVerify":
+		return new(certificateVerifyMsg)
+	case "finished":
+		return new(finishedMsg)
+	case "helloVerifyRequest":
+		return new(helloVerifyRequestMsg)
+	}
+	return nil
+}
+
+// VerifCodecKinds lists the message kinds of this stack.
+func VerifCodecKinds() []string {
+	return []string{"finished", "serverHelloDone", "certificateVerify", "clientKeyExchange", "serverKeyExchange",
+		"certificate", "certificateRequest", "helloVerifyRequest", "serverHello", "clientHello"}
+}
+
+// VerifCodecMarshal builds a fresh message of the given kind from v and marshals it.
+func VerifCodecMarshal(kind string, v *VerifCodecMsg) ([]byte, error) {
+	var m handshakeMessage
+	seq, fo, fl := v.Seq, uint24(v.FragOff), uint24(v.FragLen)
+	switch kind {
+	case "helloVerifyRequest":
+		m = &helloVerifyRequestMsg{serverVersion: v.Vers, cookie: v.Cookie, messageSeq: seq, fragmentOffset: fo, fragmentLength: fl}
+	case "clientHello":
+		x := &clientHelloMsg{vers: v.Vers, random: v.Random, sessionId: v.SessionId, cookie: v.Cookie, cipherSuites: v.CipherSuites,
+			messageSeq: seq, fragmentOffset: fo, fragmentLength: fl,
+			compressionMethods: v.Compression, serverName: v.ServerName, trustedAuthorities: v.TAs, ocspStapling: v.OCSP,
+			alpnProtocols: v.ALPN, ibsdhClientID: v.ClientID}
+		for _, c := range v.Curves {
+			x.supportedCurves = append(x.supportedCurves, CurveID(c))
+		}
+		for _, s := range v.SigAlgs {
+			x.supportedSignatureAlgorithms = append(x.supportedSignatureAlgorithms, SignatureScheme(s))
+		}
+		m = x
+	case "serverHello":
+		m = &serverHelloMsg{vers: v.Vers, random: v.Random, sessionId: v.SessionId, cipherSuite: v.CipherSuite,
+			compressionMethod: v.CompressionMethod, ocspStapling: v.OCSP, ocspResponse: v.OCSPResponse,
+			alpnProtocol: v.ALPNProto, serverNameAck: v.SNIAck, messageSeq: seq, fragmentOffset: fo, fragmentLength: fl}
+	case "certificate":
+		m = &certificateMsg{certificates: v.Certificates, messageSeq: seq, fragmentOffset: fo, fragmentLength: fl}
+	case "serverKeyExchange":
+		m = &serverKeyExchangeMsg{key: v.Blob, messageSeq: seq, fragmentOffset: fo, fragmentLength: fl}
+	case "certificateRequest":
+		m = &certificateRequestMsg{certificateTypes: v.CertTypes, certificateAuthorities: v.CAs, messageSeq: seq, fragmentOffset: fo, fragmentLength: fl}
+	case "serverHelloDone":
+		m = &serverHelloDoneMsg{messageSeq: seq, fragmentOffset: fo, fragmentLength: fl}
+	case "clientKeyExchange":
+		m = &clientKeyExchangeMsg{ciphertext: v.Blob, messageSeq: seq, fragmentOffset: fo, fragmentLength: fl}
+	case "certificateVerify":
+		m = &certificateVerifyMsg{signature: v.Blob, messageSeq: seq, fragmentOffset: fo, fragmentLength: fl}
+	case "finished":
+		m = &finishedMsg{verifyData: v.Blob, messageSeq: seq, fragmentOffset: fo, fragmentLength: fl}
+	default:
+		panic("verif: unknown message kind " + kind)
+	}
+	return m.marshal()
+}
+
+// VerifCodecUnmarshal runs the kind's unmarshal on a fresh object and copies the fields out.
+func VerifCodecUnmarshal(kind string, data []byte) (*VerifCodecMsg, bool) {
+	m := verifCodecNew(kind)
+	if m == nil {
+		panic("verif: unknown message kind " + kind)
+	}
+	if !m.unmarshal(data) {
+		return nil, false
+	}
+	v := &VerifCodecMsg{}
+	switch x := m.(type) {
+	case *helloVerifyRequestMsg:
+		v.Vers, v.Cookie = x.serverVersion, x.cookie
+		v.Seq, v.FragOff, v.FragLen = x.messageSeq, uint32(x.fragmentOffset), uint32(x.fragmentLength)
+	case *clientHelloMsg:
+		v.Cookie = x.cookie
+		v.Seq, v.FragOff, v.FragLen = x.messageSeq, uint32(x.fragmentOffset), uint32(x.fragmentLength)
+		v.Vers, v.Random, v.SessionId, v.CipherSuites, v.Compression = x.vers, x.random, x.sessionId, x.cipherSuites, x.compressionMethods
+		v.ServerName, v.TAs, v.OCSP, v.ALPN, v.ClientID = x.serverName, x.trustedAuthorities, x.ocspStapling, x.alpnProtocols, x.ibsdhClientID
+		for _, c := range x.supportedCurves {
+			v.Curves = append(v.Curves, uint16(c))
+		}
+		for _, s := range x.supportedSignatureAlgorithms {
+			v.SigAlgs = append(v.SigAlgs, uint16(s))
+		}
+	case *serverHelloMsg:
+		v.Vers, v.Random, v.SessionId, v.CipherSuite, v.CompressionMethod = x.vers, x.random, x.sessionId, x.cipherSuite, x.compressionMethod
+		v.OCSP, v.OCSPResponse, v.ALPNProto, v.SNIAck = x.ocspStapling, x.ocspResponse, x.alpnProtocol, x.serverNameAck
+		v.Seq, v.FragOff, v.FragLen = x.messageSeq, uint32(x.fragmentOffset), uint32(x.fragmentLength)
+	case *certificateMsg:
+		v.Certificates = x.certificates
+		v.Seq, v.FragOff, v.FragLen = x.messageSeq, uint32(x.fragmentOffset), uint32(x.fragmentLength)
+	case *serverKeyExchangeMsg:
+		v.Blob = x.key
+		v.Seq, v.FragOff, v.FragLen = x.messageSeq, uint32(x.fragmentOffset), uint32(x.fragmentLength)
+	case *certificateRequestMsg:
+		v.CertTypes, v.CAs = x.certificateTypes, x.certificateAuthorities
+		v.Seq, v.FragOff, v.FragLen = x.messageSeq, uint32(x.fragmentOffset), uint32(x.fragmentLength)
+	case *serverHelloDoneMsg:
+		v.Seq, v.FragOff, v.FragLen = x.messageSeq, uint32(x.fragmentOffset), uint32(x.fragmentLength)
+	case *clientKeyExchangeMsg:
+		v.Blob = x.ciphertext
+		v.Seq, v.FragOff, v.FragLen = x.messageSeq, uint32(x.fragmentOffset), uint32(x.fragmentLength)
+	case *certificateVerifyMsg:
+		v.Blob = x.signature
+		v.Seq, v.FragOff, v.FragLen = x.messageSeq, uint32(x.fragmentOffset), uint32(x.fragmentLength)
+	case *finishedMsg:
+		v.Blob = x.verifyData
+		v.Seq, v.FragOff, v.FragLen = x.messageSeq, uint32(x.fragmentOffset), uint32(x.fragmentLength)
+	}
+	if again, err := m.marshal(); err == nil && string(again) == string(data) {
+		v.RawIsInput = true
+	}
+	return v, true
+}
